@@ -15,13 +15,14 @@ import (
 // ---- route tables --------------------------------------------------------------------------
 
 type RouteSpec struct {
-	ID       int      `json:"id"`
-	Method   string   `json:"method"`
-	Path     string   `json:"path"` // relative to the service root
-	Consumes []string `json:"consumes,omitempty"`
-	Produces []string `json:"produces,omitempty"`
-	NFilters int      `json:"filters,omitempty"`
-	Cond     bool     `json:"if,omitempty"` // has an If-condition (always true) that is a schedule point
+	ID        int      `json:"id"`
+	Method    string   `json:"method"`
+	Path      string   `json:"path"` // relative to the service root
+	Consumes  []string `json:"consumes,omitempty"`
+	Produces  []string `json:"produces,omitempty"`
+	NFilters  int      `json:"filters,omitempty"`
+	Cond      bool     `json:"if,omitempty"`                  // has an If-condition (always true) that is a schedule point
+	SlashTwin bool     `json:"trailing_slash_twin,omitempty"` // same method and template as the route before it, plus a trailing slash
 }
 
 type SvcSpec struct {
